@@ -484,6 +484,7 @@ func (e *Env) call(n ECall) Term {
 			return lenOf(t)
 		}
 		e.c.declare("(declare-fun maplen (Int) Int)")
+		e.c.declare("(assert (forall ((m Int)) (! (>= (maplen m) 0) :pattern ((maplen m)))))")
 		return mk(SInt, "(maplen %s)", t.S)
 	case "cap":
 		need(1)
